@@ -225,6 +225,8 @@ def r09_7(ctx) -> None:
 
 
 def run(ctx) -> None:
+    from .common import forwarding_discipline
+    ctx.guard(forwarding_discipline, "R09.11", ['claims', 'encoder_cls', 'value', 'registry', 'algorithms'], 62)  # arguments are handed on under their own name (generic routing rule, rules/common.py)
     # "decoding returns only after the integrity check of the transport passed": the decrypt idioms of C02; header codec of C19
     from .c02 import r02_4
     from .c19 import r19_4_5
